@@ -391,8 +391,10 @@ func runProperty(w *World, res *checkResult, thorough bool, timeoutMs int) {
 		res.Inlined = append(res.Inlined, r.Inlined...)
 		res.Trusted = append(res.Trusted, r.Trusted...)
 		for _, o := range r.Obls {
-			if isDep[k] && !hasTag(o.Tags, p) && w.isKnownFinding(o.Name, "") {
-				continue // an open finding of another property: that clause is assumed nowhere (see applyContract)
+			if !hasTag(o.Tags, p) && w.isKnownFinding(o.Name, "") {
+				// an open finding of another property (reported by that property's check, assumed nowhere: see
+				// applyContract): not part of this property, neither as a dependency nor in the thorough tier
+				continue
 			}
 			if thorough || relevant(o, p) || (isDep[k] && !strings.HasPrefix(o.Kind, "safety:")) {
 				all = append(all, o)
@@ -753,6 +755,10 @@ func (w *World) writersObligations(p string) []*Obligation {
 		if !hasTag(wd.Tags, p) {
 			continue
 		}
+		if wd.LockFree {
+			out = append(out, w.lockFreeObligation(wd))
+			continue
+		}
 		allowed := map[string]bool{}
 		for _, f := range wd.Funcs {
 			allowed[f] = true
@@ -811,6 +817,79 @@ func (w *World) writersObligations(p string) []*Obligation {
 	out = append(out, w.neverClosedObligations(p)...)
 	out = append(out, w.closeOnlyObligations(p)...)
 	return out
+}
+
+// lockFreeObligation: `lockfree T.m in F1, F2` - none of the listed functions, nor any function of the module they
+// (transitively, by static calls and closures) call, locks the mutex field T.m. Used where another function blocks
+// on these functions while it holds T.m (Shutdown hands the stop token to the listener under the provider mutex).
+func (w *World) lockFreeObligation(wd *WritersDecl) *Obligation {
+	roots := map[*ssa.Function]bool{}
+	found := map[string]bool{}
+	for key, fn := range w.funcs {
+		for _, f := range wd.Funcs {
+			if strings.HasSuffix(shortKey(key), f) && fn.Blocks != nil {
+				roots[fn] = true
+				found[f] = true
+			}
+		}
+	}
+	var offenders []string
+	for _, f := range wd.Funcs {
+		if !found[f] {
+			offenders = append(offenders, "function "+f+" not found")
+		}
+	}
+	seen := map[*ssa.Function]bool{}
+	var visit func(fn *ssa.Function, via string, depth int)
+	visit = func(fn *ssa.Function, via string, depth int) {
+		if fn == nil || seen[fn] || fn.Blocks == nil || depth > 8 {
+			return
+		}
+		seen[fn] = true
+		for _, b := range fn.Blocks {
+			for _, ins := range b.Instrs {
+				if mc, ok := ins.(*ssa.MakeClosure); ok {
+					visit(mc.Fn.(*ssa.Function), via, depth+1)
+				}
+				ci, ok := ins.(ssa.CallInstruction)
+				if !ok {
+					continue
+				}
+				callee := ci.Common().StaticCallee()
+				if callee == nil {
+					continue
+				}
+				switch callee.String() {
+				case "(*sync.Mutex).Lock", "(*sync.RWMutex).Lock", "(*sync.RWMutex).RLock":
+					if fa, ok := ci.Common().Args[0].(*ssa.FieldAddr); ok {
+						if pt, ok := fa.X.Type().Underlying().(*types.Pointer); ok {
+							if _, ok := pt.Elem().Underlying().(*types.Struct); ok && fieldClass(pt.Elem(), fa.Field) == wd.Field {
+								offenders = append(offenders, shortKey(funcKey(fn))+" locks it ("+w.prog.Fset.Position(ins.Pos()).String()+", reached from "+via+")")
+							}
+						}
+					}
+					continue
+				}
+				pk := callee.Pkg
+				if pk == nil && callee.Parent() != nil {
+					pk = callee.Parent().Pkg
+				}
+				if pk != nil && strings.HasPrefix(pk.Pkg.Path(), modPath) {
+					visit(callee, via, depth+1)
+				}
+			}
+		}
+	}
+	for fn := range roots {
+		visit(fn, shortKey(funcKey(fn)), 0)
+	}
+	sort.Strings(offenders)
+	o := &Obligation{Name: "lockfree:" + shortKey(wd.Field), Fn: "lockfree", Kind: "lockfree", Tags: wd.Tags, Goal: "true", Src: strings.Join(wd.Funcs, ", ") + " and what they call never lock " + shortKey(wd.Field), Status: "trivial"}
+	if len(offenders) > 0 {
+		o.Status, o.Solver, o.Goal = "sat", "syntactic", "false"
+		o.Output = strings.Join(offenders, "; ")
+	}
+	return o
 }
 
 // neverClosedObligations: `neverclosed T.f` - no close() in the module is applied to a channel loaded from T.f.
